@@ -15,9 +15,11 @@ from fractions import Fraction
 VERIF = os.path.dirname(os.path.dirname(os.path.abspath(__file__)))
 REPO = os.environ.get("VERIF_REPO", "/repo")
 LEAN = os.path.join(VERIF, "lean")
-OUT = os.path.join(VERIF, "out")
+# VERIF_OUT_DIR / VERIF_EVIDENCE_DIR redirect scratch output and evidence (used by the mutation sweep and the seeded-change
+# evaluation so that several runs of one property do not overwrite each other or the committed evidence)
+OUT = os.environ.get("VERIF_OUT_DIR") or os.path.join(VERIF, "out")
 REPLAYS = os.path.join(OUT, "replays")
-EVID = os.path.join(VERIF, "evidence")
+EVID = os.environ.get("VERIF_EVIDENCE_DIR") or os.path.join(VERIF, "evidence")
 ALLOWED_AXIOMS = {"propext", "Classical.choice", "Quot.sound"}
 GUARD = "SOCIALCHOICEKIT_VERIF"
 
